@@ -604,11 +604,27 @@ pub fn run(ctx: &Ctx) {
                     }
                 }
             }
-            // sentinel
+            // the history ends with a sentinel message - or with the peer dying in the middle of a frame: the frame's
+            // length prefix announces more than ever arrives (cut right behind the prefix, right behind the control
+            // term, or anywhere), then the socket closes. Nothing of that frame may be delivered.
+            let dying = h % 5 == 4;
             let mut end = vec![112u8];
-            end.extend(ref_encode_canonical(&control_of_kind(1, 9_999_999).0).unwrap());
+            let end_control = ref_encode_canonical(&control_of_kind(1, 9_999_999).0).unwrap();
+            end.extend_from_slice(&end_control);
             end.extend(ref_encode_canonical(&Val::atom("$end$")).unwrap());
-            stream.extend(frame(&end));
+            if dying {
+                let full = frame(&end);
+                let cut = match rng.below(4) {
+                    0 => 4,
+                    1 | 2 => 4 + 1 + end_control.len(),
+                    _ => 5 + rng.below(full.len() - 5),
+                };
+                stream.extend_from_slice(&full[..cut]);
+                layout.push(format!("unfinished-frame(cut at {} of {})", cut, full.len()));
+                ctx.class(&format!("{:?}/peer-dies-mid-frame/{}", mode, if cut == 4 { "after-prefix" } else if cut == 5 + end_control.len() { "after-control-term" } else { "elsewhere" }));
+            } else {
+                stream.extend(frame(&end));
+            }
             let mut cuts: Vec<usize> = (0..rng.below(40)).map(|_| 1 + rng.below(stream.len() - 1)).collect();
             cuts.sort();
             cuts.dedup();
@@ -655,6 +671,18 @@ pub fn run(ctx: &Ctx) {
             if !broken {
                 // everything expected arrived; then only the sentinel may follow
                 let rest = &oks[i..];
+                if dying {
+                    if !rest.is_empty() {
+                        ctx.viol(
+                            "C06:message-from-an-unfinished-frame",
+                            "the peer closed the stream in the middle of a frame, yet a message was returned for it",
+                            wit(json!({"returned": rest.iter().map(|g| format!("{} / {:?}", g.0.show(), g.1.as_ref().map(|x| x.show()))).collect::<Vec<_>>()})),
+                        );
+                    } else if !fatal_tail {
+                        ctx.viol("C06:unfinished-frame-not-reported", "the peer closed the stream in the middle of a frame and no error was reported", wit(json!({"results": out.results.len()})));
+                    }
+                    continue;
+                }
                 let sentinel_ok = rest.len() == 1 && matches!(&rest[0].1, Some(Val::Atom(a)) if a == "$end$");
                 if rest.len() > 1 || (rest.len() == 1 && !sentinel_ok) {
                     ctx.viol("C06:extra-message", "a message was returned that the peer did not send (duplicate or surfaced tick)", wit(json!({"extra": rest.iter().map(|g| g.0.show()).collect::<Vec<_>>()})));
